@@ -27,6 +27,7 @@ ASSUMPTIONS = [
 ]
 
 _pool = None
+pool_broken = [False]
 
 
 def _worker_roundtrip(arg):
@@ -149,8 +150,14 @@ def check_single(dd, plain, acc, case, pool):
     if len(set(cids)) != len(cids) or set(cids) & {x.id for x in pre}:
         V(acc, 'deepcopy/ids-not-fresh', f'{plain!r}', case)
     # pickle in-process
-    r = pickle.loads(pickle.dumps(n))
-    if model.to_plain(r) != plain:
+    try:
+        r = pickle.loads(pickle.dumps(n))
+    except Exception as e:  # noqa
+        V(acc, f'pickle/raises-{type(e).__name__}', f'pickle round trip of {plain!r}: {e!r}', case)
+        r = None
+    if r is None:
+        pass
+    elif model.to_plain(r) != plain:
         V(acc, 'pickle/structure', f'{plain!r} -> {model.to_plain(r)!r}', case)
     else:
         if [x.id for x in nodes.dfs(r)] != [x.id for x in pre]:
@@ -160,8 +167,19 @@ def check_single(dd, plain, acc, case, pool):
         if not (r == n) or not (r == m) or not (m == r):
             V(acc, 'pickle/eq', f'{plain!r}', case)
     # through the fork-based pool
-    if pool is not None:
-        res = pool.apply(_worker_roundtrip, ((n, plain), ))
+    res = None
+    if pool is not None and not pool_broken[0]:
+        try:
+            res = pool.apply_async(_worker_roundtrip, ((n, plain), )).get(timeout=30)
+        except multiprocessing.TimeoutError:
+            # a worker that dies while unpickling its task never answers
+            V(acc, 'pickle/worker-never-answers',
+              f'a forked worker did not return the tree within 30 s (it died or hangs while receiving it): {plain!r}', case)
+            pool_broken[0] = True
+        except Exception as e:  # noqa
+            V(acc, f'pickle/worker-raises-{type(e).__name__}', f'{e!r} for {plain!r}', case)
+            pool_broken[0] = True
+    if res is not None:
         back = res['node']
         if res['plain'] != plain or model.to_plain(back) != plain:
             V(acc, 'pickle/worker-structure', f'{plain!r}', case)
@@ -303,6 +321,19 @@ def check_binary_search(dd, acc):
 
 
 def run_case(dd, case, acc, pool):
+    try:
+        return _run_case(dd, case, acc, pool)
+    except RuntimeError:
+        raise
+    except Exception as e:  # noqa  an API of ddsmt.nodes raised on a generated tree
+        import traceback
+        tb = traceback.extract_tb(e.__traceback__)
+        where = [f.name for f in tb if '/ddsmt/' in f.filename]
+        V(acc, f'raises/{type(e).__name__}@{where[-1] if where else "?"}', f'{e!r} on {case!r}'[:1500], case)
+        return False, [case['kind']]
+
+
+def _run_case(dd, case, acc, pool):
     kind = case['kind']
     classes = [kind]
     nt = False
@@ -360,7 +391,10 @@ def shard(ctx, acc):
 
         runner.hyp_run(ctx, case_strategy(), body, ctx.share(total))
     finally:
-        pool.terminate()
+        try:
+            pool.terminate()
+        except Exception:  # noqa  (a pool whose handler thread died on a bad pickle cannot be shut down cleanly)
+            pass
 
 
 def replay(case, acc, ctx):
